@@ -1629,6 +1629,13 @@ class TaskDispatcher(object):
 
             #child_execution_name = parameters.get("Name", str(uuid.uuid4())) # Deprecated
             child_execution_name = parameters.get("Name", event_id)
+            if not valid_name(child_execution_name):
+                message = "TaskDispatcher asl_service_states_startExecution: " \
+                          "{} is an invalid name".format(child_execution_name)
+                error = {"errorType": "InvalidName", "errorMessage": message}
+                send_error_callback(context.get("Tracer", {}), error)
+                return
+
             child_execution_arn = create_arn(
                 service="states",
                 region=region,
